@@ -5,6 +5,12 @@ import json, subprocess, os
 V = os.path.dirname(os.path.dirname(os.path.abspath(__file__)))
 
 claimed = {
+ "C01": dict(tech="crash-class inventory over the VTA-reachable repository functions: dominance/guard analysis, SCCP over operand-length classes, operator-token enumeration, visitor dispatch typing",
+    text="Every instruction of a recognised crash class (explicit panic / panic helper, integer and decimal division, index and slice, unchecked type assertion, non-finite float into decimal, nil patch argument, nil expression node) and every loop in the repository functions reachable from Compile/Evaluate/Patch is an obligation that must be discharged by a guard holding on every path, a reviewed entry or a known finding. Decides the absence of these crash classes for all inputs; nil dereferences in general, third-party panics and stack exhaustion are not decided.",
+    note="Trusted: go/ssa, VTA call graph (reflection-only callees added as roots), library panic table (shopspring/decimal, regexp), reviewed.json (39 entries: reflect results, protopath invariants, grammar token positions, collection invariant). Assumes years 0..9999 and collections of System values / FHIR messages.", ref="§3-C01"),
+ "C07": dict(tech="SCCP over SSA under len(input)=0 / operand=empty hypotheses for every table entry and operator node",
+    text="For every non-aggregate name of both function tables x every admitted arity, and every operator node x operand position, conditional constant propagation shows the only executable outcomes on an empty input/operand are (Empty, nil) or an argument-dependent error, and no crash site is executable. Exhaustive over the tables and nodes of the working tree.",
+    note="Trusted: SCCP engine; aggregate list from the property statement. The producer of the empty collection (literal, path, variable) is not distinguished.", ref="§3-C07"),
  "C03": dict(tech="static effect analysis (VTA call-graph reachability + SSA value provenance/freshness)",
     text="Decides, for all paths of all repository functions reachable from the Evaluate entry points, that no proto mutator, no write through a non-fresh slice, no store to a compiled node and no unlisted Context write exists. Structural necessary-and-nearly-sufficient condition of the property (minus reflection and third-party internals); not a proof of the behavioural statement.",
     note="Trusted: go/ssa + VTA call graph (over-approximate), frozen protoreflect mutator table, reviewed.json entries. Not covered: mutation behind reflect (user functions) and inside libraries other than the summarised entry points.", ref="§3-C03"),
